@@ -84,22 +84,41 @@ func Guard() error {
 	if pt.Kind() != reflect.Struct || pt.Size() != PointSize {
 		return fmt.Errorf("Point has size %d, expected %d", pt.Size(), PointSize)
 	}
-	// the four coordinates are found by name, in whatever order they are declared
-	found := 0
+	// the four coordinates are found by name (x, y, z, t, or names ending in those
+	// letters), in whatever order they are declared; with other names the
+	// declaration order X, Y, Z, T is assumed. Either way the value cross-check
+	// below (known points with Z = 1 and T = XY != Z) must confirm the reading.
+	var elems []reflect.StructField
 	for i := 0; i < pt.NumField(); i++ {
 		f := pt.Field(i)
 		if f.Type.Size() == 0 {
 			continue
 		}
-		k := strings.Index("xyzt", f.Name)
-		if len(f.Name) != 1 || k < 0 || f.Type != et || f.Offset%8 != 0 {
+		if f.Type != et || f.Offset%8 != 0 {
 			return fmt.Errorf("Point field %s %s at %d does not match the assumed layout", f.Name, f.Type, f.Offset)
 		}
-		pointOff[k] = f.Offset
-		found |= 1 << k
+		elems = append(elems, f)
 	}
+	if len(elems) != 4 {
+		return fmt.Errorf("Point has %d coordinate fields", len(elems))
+	}
+	found := 0
+	for _, f := range elems {
+		k := strings.Index("xyzt", strings.ToLower(f.Name[len(f.Name)-1:]))
+		if k >= 0 {
+			pointOff[k] = f.Offset
+			found |= 1 << k
+		}
+	}
+	pointNamesUnknown = false
 	if found != 15 {
-		return fmt.Errorf("Point does not have the four coordinate fields x, y, z, t")
+		for k, f := range elems {
+			pointOff[k] = f.Offset
+		}
+		pointNamesUnknown = true
+		if skipCrossCheck {
+			return fmt.Errorf("Point coordinate fields are not called x, y, z, t and the assumed order cannot be verified without calling the library")
+		}
 	}
 	st := reflect.TypeOf(edwards25519.Scalar{})
 	if st.Kind() != reflect.Struct || st.NumField() != 1 || st.Size() != ScalarSize {
@@ -129,6 +148,9 @@ func GuardLayoutOnly() error {
 }
 
 var skipCrossCheck bool
+
+// pointNamesUnknown: the coordinate fields of Point were identified by position only.
+var pointNamesUnknown bool
 
 // LimbsOf splits a value below 2^255 into five 51-bit limbs.
 func LimbsOf(v *big.Int) Limbs {
@@ -194,6 +216,16 @@ func crossCheck() error {
 	want.Add(want, big.NewInt(7))
 	if ScalarVal(ScalarLimbs(s)).Cmp(want) != 0 {
 		return fmt.Errorf("alpha cross-check: Scalar reader disagrees with SetCanonicalBytes(2^200+7)")
+	}
+	if pointNamesUnknown {
+		// the roles of the four coordinate fields were assumed from their order: the
+		// base point must then read as (x : 4/5 : 1 : 4x/5) up to scaling
+		r := PointLimbs(edwards25519.NewGeneratorPoint())
+		X, Y, Z, T := ElemVal(r.X), ElemVal(r.Y), ElemVal(r.Z), ElemVal(r.T)
+		m := func(a, b *big.Int) *big.Int { v := new(big.Int).Mul(a, b); return v.Mod(v, P) }
+		if Z.Sign() == 0 || m(Y, big.NewInt(5)).Cmp(m(Z, big.NewInt(4))) != 0 || m(T, Z).Cmp(m(X, Y)) != 0 {
+			return fmt.Errorf("alpha cross-check: Point coordinate fields have unknown names and do not read as (X, Y, Z, T) in declaration order")
+		}
 	}
 	// Point: no value cross-check on purpose. Producing any Point needs the
 	// library's field arithmetic; if that is broken the failure must surface
